@@ -140,6 +140,9 @@ func (e *Exec) app(sort Sort, op string, args ...*Term) *Term {
 }
 
 func (e *Exec) fresh(sort Sort, hint string) *Term {
+	if e.local != nil {
+		panic(localFail{"fresh symbol in summarised function"})
+	}
 	e.freshCtr++
 	n := fmt.Sprintf("%s!%d", sanitize(hint), e.freshCtr)
 	e.solver.send(fmt.Sprintf("(declare-const %s %s)", n, sort.String()))
@@ -510,6 +513,10 @@ func (e *Exec) fbin(op string, a, b *Term) *Term {
 				return mkF32(r)
 			}
 		}
+	}
+	if e.fpAbstraction {
+		e.note("abstraction: results of floating-point + - * / on symbolic operands replaced by arbitrary doubles (IEEE arithmetic itself is outside the claim)")
+		return e.fFromBits(e.fresh(sBV(a.sort.w), "fpabs"))
 	}
 	return e.mk(a.sort, fmt.Sprintf("(%s RNE %s %s)", op, a.s, b.s))
 }
